@@ -7,6 +7,11 @@ BASE = ("cd /repo && /venv/bin/python -m pytest -ra -q -p no:cacheprovider --tim
         "--continue-on-collection-errors")
 
 CLAIMED = {
+    'C17': dict(
+        text="Spacing.tla defines, over a token row of kinds zero-width / blank / newline / other, the run a spacing accessor denotes and what its setter may change (exactly that run, replaced by fresh whitespace tokens of the assigned length, everything else identical in identity and order, non-empty values read back); get / set executions on every model and token with accessors of Layout.tla documents (both sides, sampled strings over space, tab, LF, CRLF, both attribution modes, load factor rotated so runs straddle block boundaries) are recorded and validated by TLC; neighbours sharing a pure blank gap must read the same string; the tree must stay well formed and a later edit through a neighbour must still work.",
+        note="Documents of <= 2-3 lines (+ sampled longer), 2-4 strings per model and side.",
+        technique="TLC trace validation (Spacing.tla) of recorded accessor executions",
+        ref="§6 C17"),
     'C11': dict(
         text="Docs.tla states the rules for stores and copies (a deep copy is a new store with disjoint tokens whose text is the span's text, a complete tree, equal both ways; an edit through one store leaves every other store's text and token identities untouched); copy.deepcopy of every model at every depth of Layout.tla documents - in both attribution modes and after hand-back-and-forth claim sequences that move placeholders - and of the repeated-field wrappers themselves, followed by edits on the copy and on the original and by inserting a copy, is recorded and validated by TLC.",
         note="Documents of <= 2-3 (quick) / 4 lines; edits: token text changes, meta append/pop, spacing.",
